@@ -120,3 +120,104 @@ func paramNormalised(f *ssa.Function, par *ssa.Parameter) bool {
 	}
 	return false
 }
+
+// c19OptionsAgree: the option structs the commands build from their flag variables. The file path, the stdin path
+// and the inline path of one command must translate the same flags into the same fields, otherwise
+// `format FILE`, `format < FILE` and `format --check` disagree about the same text; and one flag variable feeding
+// two different fields of one literal is a copied line with one name left unchanged.
+func c19OptionsAgree(c *Ctx, p *core.Prog) {
+	r := c.R
+	r.Rule("options-agree", "composite literals of one option struct type in cmd/gosqlx/cmd take each field from the same flag variable at every site (constants may differ), and no flag variable feeds two fields of one literal")
+	type site struct {
+		fn     *ssa.Function
+		pos    token.Pos
+		fields map[string]string // field -> global name
+	}
+	byType := map[string][]site{}
+	for _, fn := range p.SrcFuncs("cmd/gosqlx/cmd") {
+		for _, b := range fn.Blocks {
+			for _, in := range b.Instrs {
+				a, ok := in.(*ssa.Alloc)
+				if !ok {
+					continue
+				}
+				T := core.NamedOf(core.Deref(a.Type()))
+				if T == nil || core.StructOf(T) == nil || T.Obj().Pkg() == nil || !core.PathHasSuffix(T.Obj().Pkg().Path(), "cmd/gosqlx/cmd") {
+					continue
+				}
+				s := site{fn: fn, pos: a.Pos(), fields: map[string]string{}}
+				for _, ref := range core.Referrers(a) {
+					fa, ok := ref.(*ssa.FieldAddr)
+					if !ok {
+						continue
+					}
+					for _, r2 := range core.Referrers(fa) {
+						st, ok := r2.(*ssa.Store)
+						if !ok || st.Addr != ssa.Value(fa) {
+							continue
+						}
+						if u, ok := st.Val.(*ssa.UnOp); ok {
+							if g, ok := u.X.(*ssa.Global); ok {
+								s.fields[core.FieldName(fa.X.Type(), fa.Field)] = g.Name()
+							}
+						}
+					}
+				}
+				if len(s.fields) >= 2 {
+					byType[T.Obj().Name()] = append(byType[T.Obj().Name()], s)
+				}
+			}
+		}
+	}
+	var tns []string
+	for k := range byType {
+		tns = append(tns, k)
+	}
+	sort.Strings(tns)
+	n := 0
+	for _, tn := range tns {
+		sites := byType[tn]
+		sort.Slice(sites, func(i, j int) bool { return sites[i].pos < sites[j].pos })
+		for i, s := range sites {
+			n++
+			key := tn + "|" + core.FnName(s.fn) + sprintf("#%d", i+1)
+			var probs []string
+			// one variable, two fields
+			used := map[string][]string{}
+			for f, g := range s.fields {
+				used[g] = append(used[g], f)
+			}
+			for g, fs := range used {
+				if len(fs) > 1 {
+					sort.Strings(fs)
+					probs = append(probs, "flag variable "+g+" is written into the fields "+strings.Join(fs, " and "))
+				}
+			}
+			// disagreement with the majority of sibling sites
+			for f, g := range s.fields {
+				count := map[string]int{}
+				for _, o := range sites {
+					if og, ok := o.fields[f]; ok {
+						count[og]++
+					}
+				}
+				best, bestN := g, 0
+				for og, cn := range count {
+					if cn > bestN || (cn == bestN && og < best) {
+						best, bestN = og, cn
+					}
+				}
+				if best != g && count[best] > count[g] {
+					probs = append(probs, "field "+f+" is taken from "+g+" here but from "+best+" at the other "+sprintf("%d", count[best])+" site(s)")
+				}
+			}
+			sort.Strings(probs)
+			if len(probs) == 0 {
+				r.OK("options-agree", key, p.Pos(s.pos), sprintf("%d fields from flag variables", len(s.fields)))
+			} else {
+				r.Violate("options-agree", key, p.Pos(s.pos), strings.Join(probs, "; ")+": this code path handles the same command-line options differently from its siblings")
+			}
+		}
+	}
+	r.Extra("option_literals", n)
+}
